@@ -305,9 +305,25 @@ pub fn check_c19_step(net: &Net, st: &StepRecord) -> Option<String> {
 
 // ---------------------------------------------------------------- C20
 
+/// a fresh map with the same entries (a new `RandomState`, hence possibly another iteration order)
+fn rebuilt(r: &CallResults, extra: &[(&str, &str)]) -> CallResults {
+    let mut keys: Vec<&String> = r.keys().collect(); keys.sort();
+    let mut m = CallResults::new();
+    for (k, v) in extra { m.insert(k.to_string(), CallServiceResult { ret_code: 0, result: v.to_string() }); }
+    for k in keys.into_iter().rev() { m.insert(k.clone(), r[k].clone()); }
+    m
+}
+
 pub fn check_c20_step(net: &Net, st: &StepRecord) -> Option<String> {
-    let o2 = crate::host::run(&RunArgs { air: &net.air, prev: &st.prev, cur: &st.cur, init_peer_id: &net.peer_ids[net.init], peer: &net.peers[st.peer].peer, particle_id: &net.particle,
-                            timestamp: net.timestamp, ttl: net.ttl, results: &st.results, limits: Limits::unlimited() });
+    let run_with = |results: &CallResults| crate::host::run(&RunArgs { air: &net.air, prev: &st.prev, cur: &st.cur, init_peer_id: &net.peer_ids[net.init], peer: &net.peers[st.peer].peer, particle_id: &net.particle,
+                            timestamp: net.timestamp, ttl: net.ttl, results, limits: Limits::unlimited() });
+    // the same inputs with several results that match no pending call: the run reports them (30000); repeated with freshly built maps
+    let extra = [("900001", "1"), ("900002", "\"two\""), ("900003", "[3]"), ("900004", "null")];
+    let (a, b) = (run_with(&rebuilt(&st.results, &extra)), run_with(&rebuilt(&st.results, &extra)));
+    if a.ret_code != b.ret_code || a.error_message != b.error_message {
+        return Some(format!("two runs on the same inputs (with unmatched call results) returned different code/message: {} {:?} vs {} {:?}", a.ret_code, a.error_message, b.ret_code, b.error_message));
+    }
+    let o2 = run_with(&rebuilt(&st.results, &[]));
     let o = &st.outcome;
     if o.ret_code != o2.ret_code { return Some(format!("two runs on the same inputs returned codes {} and {}", o.ret_code, o2.ret_code)); }
     if o.error_message != o2.error_message { return Some(format!("two runs on the same inputs returned different messages: {:?} vs {:?}", o.error_message, o2.error_message)); }
@@ -326,11 +342,32 @@ pub fn check_c20_step(net: &Net, st: &StepRecord) -> Option<String> {
     None
 }
 
+/// the same step re-executed in a fresh process (new hash seeds, new allocator state): same canonical observation
+pub fn check_c20_fresh_process(net: &Net, st: &StepRecord) -> Option<String> {
+    let mut input = step_json(net, st);
+    input["timestamp"] = json!(net.timestamp); input["ttl"] = json!(net.ttl);
+    let path = std::env::temp_dir().join(format!("aqua_c20_{}_{}.json", std::process::id(), st.step));
+    std::fs::write(&path, serde_json::to_string(&input).unwrap()).ok()?;
+    let exe = std::env::current_exe().ok()?;
+    let out = std::process::Command::new(exe).arg("rerun-step").arg(&path).output();
+    let _ = std::fs::remove_file(&path);
+    let out = match out { Ok(o) => o, Err(e) => return Some(format!("cannot re-execute in a fresh process: {e}")) };
+    let line = String::from_utf8_lossy(&out.stdout).lines().last().unwrap_or("").to_string();
+    let theirs: Value = match serde_json::from_str(&line) { Ok(v) => v, Err(_) => return Some(format!("fresh process died or printed no observation (status {:?})", out.status.code())) };
+    let ours = crate::props::probe::canon_outcome(&st.outcome);
+    if ours != theirs {
+        let field = ["code", "msg", "data", "next", "requests", "requests_decode"].iter().find(|f| ours[**f] != theirs[**f]).cloned().unwrap_or("?");
+        return Some(format!("the same step re-executed in a fresh process differs in `{field}`: {} vs {}", ours[field], theirs[field]));
+    }
+    None
+}
+
 // ---------------------------------------------------------------- known findings (see /verif/known_findings.json, DESIGN.md §11)
 
 /// class of a failure, used to match entries of known_findings.json (never the property id alone)
 pub fn finding_key(prop: &str, why: &str, input: &Value) -> Option<String> {
     let msg = input["outcome"]["error_message"].as_str().unwrap_or("");
+    if prop == "C20" && why.contains("with unmatched call results") && why.contains("unprocessed call results") { return Some("unprocessed-call-results-message-in-hash-order".into()); }
     if prop == "C04" && why.contains("TraceError") && msg.contains("state from") && msg.contains("`Call(RequestSentBy(") && msg.contains("is incompatible with expected") {
         return Some("stale-request-state-consumed-by-another-instruction".into());
     }
@@ -345,6 +382,27 @@ pub fn known_scenarios(prop: &str) -> Vec<(String, usize, u64)> {
         // catchably *before* the state is consumed; the xor fallback then reads the stale call state
         "C04" => vec![(format!(r#"(par (call "{d}" ("svc" "arrempty_1") [] v) (xor (call "{e}" ("svc" "str_2") [v.$.[0]] w) (ap "x" $s)))"#, d = p[3].id, e = p[4].id), 5, 1)],
         _ => vec![],
+    }
+}
+
+/// known finding (DESIGN.md §11): keys `"1"` and `1` of a stream map collide when a canon stream map is turned into a
+/// JSON object; which group survives depends on hash iteration order, so the value handed to a service differs between runs
+fn c20_canon_map_collision_probe(rep: &mut Report) {
+    let a = Peer::new("a");
+    let air = format!(r#"(seq (seq (ap ("1" "a") %m) (ap (1 "b") %m)) (seq (canon "{me}" %m #%c) (call "{me}" ("s" "id") [#%c])))"#, me = a.id);
+    let mut seen: Vec<String> = vec![];
+    for _ in 0..64 {
+        let o = crate::host::run(&RunArgs { air: &air, prev: &[], cur: &[], init_peer_id: &a.id, peer: &a, particle_id: "c20-probe", timestamp: 1, ttl: 1,
+                                 results: &CallResults::new(), limits: Limits::unlimited() });
+        rep.evaluations += 1;
+        if let Some(reqs) = decode_requests(&o.call_requests) {
+            for r in reqs.values() { let args = serde_json::to_string(&decode_args(r)).unwrap(); if !seen.contains(&args) { seen.push(args); } }
+        }
+    }
+    rep.stat_n("c20_probe_distinct_service_arguments", seen.len() as u64);
+    if seen.len() > 1 {
+        rep.oracle_fail(json!({"why": format!("64 runs on identical inputs handed the service different arguments: {}", seen.join(" / ")),
+            "input": {"air": air, "prev_hex": "", "cur_hex": "", "results": {}}, "finding_key": "canon-map-key-collision", "scenario": "known-finding replay"}));
     }
 }
 
@@ -376,6 +434,7 @@ pub fn run_property(prop: &str, ctx: &mut Ctx, rep: &mut Report) {
             }
         }
     }
+    if prop == "C20" { c20_canon_map_collision_probe(rep); }
     for hi in 0..pl.histories {
         let streams = pl.streams_every == 1 || hi % pl.streams_every == 1;
         let budget = 6 + rng.below(pl.budget); let mut h = gen_history(&mut rng, streams, pl.fragment, budget, pl.max_steps);
@@ -439,7 +498,7 @@ pub fn run_property(prop: &str, ctx: &mut Ctx, rep: &mut Report) {
                 "C09" => if st.event.starts_with("fault") { None } else { check_c09_step(st) },
                 "C10" => check_c10_data(&st.outcome.data),
                 "C19" => check_c19_step(&h.net, st),
-                "C20" => check_c20_step(&h.net, st),
+                "C20" => check_c20_step(&h.net, st).or_else(|| if (rep.evaluations % if ctx.thorough { 3 } else { 6 }) == 0 { rep.stat("fresh_process_reruns"); check_c20_fresh_process(&h.net, st) } else { None }),
                 _ => None,
             };
             if let Some(why) = fail { if first_fail.is_none() { first_fail = Some((why, step_json(&h.net, st))); } }
